@@ -543,8 +543,12 @@ def write_if_changed(path, text):
 def regenerate():
     """Returns dict(file -> status); raises Unsupported if a source is outside the subset."""
     status = {}
-    text, names = translate_ip()
-    status["GenIP.v"] = {"changed": write_if_changed(os.path.join(GEN, "GenIP.v"), text), "definitions": len(names)}
+    ip_error = None
+    try:
+        text, names = translate_ip()
+        status["GenIP.v"] = {"changed": write_if_changed(os.path.join(GEN, "GenIP.v"), text), "definitions": len(names)}
+    except Unsupported as u:      # reported after the table generators have run (they serve other properties)
+        ip_error = u
     # table generators: every harness/gen_*.py with generate() -> {"TabXxx.v": text}
     import glob
     import importlib
@@ -564,6 +568,8 @@ def regenerate():
             if not fn.startswith("Tab") or not fn.endswith(".v"):
                 raise Unsupported("%s: generated file name %s must be Tab*.v" % (modname, fn))
             status[fn] = {"changed": write_if_changed(os.path.join(GEN, fn), text)}
+    if ip_error is not None:
+        raise ip_error
     return status
 
 
